@@ -38,7 +38,9 @@
      QamGrayIndexInverted     QAM applies the Gray index permutation the wrong way round: position
                               (R, C) carries g2b(R), g2b(C) - not Gray from M = 64 on
      QamAcceptsOne            QAM(1) is accepted (and emits a NaN symbol)
-     NoNormalisation, ModulateWraps, DetectRealOnly, GrayTwice, ModulateReusesBuffer (modulate returns
+     NoNormalisation, ModulateWraps, DetectRealOnly, GrayTwice, AbsorbsTinyTerms (a detector that compares
+     rounded distances: components below 1e-16 vanish), BlockwiseRoundsDown (frames processed in blocks, the
+     number of blocks rounded: the tail of a long frame keeps index 0), ModulateReusesBuffer (modulate returns
      a per-object output array that the next same-shape call overwrites), BerNotPerBit (C16: the bit error
      rate form without the division by the bits per symbol)
 
@@ -49,6 +51,9 @@
                       PSK: every angle index 0 .. M*D-1 at three radii, rows of RowLen
      SMode = "edge"   PSK, D large: the two samples one angle step either side of every decision
                       boundary (all boundaries when M*2 <= NRows*RowLen, seeded otherwise)
+     SMode = "scaled" lattice kinds: samples x0 + x1*10^ex, y0 + y1*10^ey with exponents from Exps (e.g. -200 .. 100
+                      for BPSK): a point / boundary / 0 plus a perturbation or a huge component; the nearest point
+                      is found by the exact sign of a linear form (ConstellationOps.SignDiff)
      SMode = "seeded" NRows x RowLen samples from the in-spec Lehmer generator: a random point plus
                       an offset from {0, +-1, +-D/2, +-(D-1), +-(D+1), far}  (i.e. 1/D either side of a boundary)
 *)
@@ -59,6 +64,7 @@ CONSTANTS Kind,     \* "QAM" | "PSK" | "BPSK"
           D,        \* sample resolution
           NOff,     \* PSK: phase-offset ids 1..NOff for SetPhaseOffset (0 = at construction)
           SMode, NRows, RowLen, Seed,
+          Exps,     \* SMode = "scaled": the decimal exponents of the scaled samples (a sequence containing 0)
           Part, NParts,
           Dev
 
@@ -126,6 +132,13 @@ Samples(r) ==
             LET u == Draw(r, c)  v == LcgNext(u)  w == LcgNext(v)
                 p == (u % M) + 1
             IN  <<D * PX(g, p) + OffsetSet[(v % Len(OffsetSet)) + 1], D * PY(g, p) + OffsetSet[(w % Len(OffsetSet)) + 1]>>]
+    [] SMode = "scaled" ->      \* lattice kinds: <<x0, x1, ex, y0, y1, ey>>, see ConstellationOps (extreme scale ratios)
+         [c \in 1..RowLen |->
+            LET u == Draw(r, c)  v == LcgNext(u)  w == LcgNext(v)
+                p == (u % M) + 1
+                mant == <<-3, -1, 1, 2, 999, -999>>
+            IN  << <<0, PX(g, p), PX(g, p) + 1>>[(v % 3) + 1], mant[((v \div 3) % 6) + 1], Exps[((v \div 18) % Len(Exps)) + 1],
+                   <<0, PY(g, p), PY(g, p) + 1>>[(w % 3) + 1], mant[((w \div 3) % 6) + 1], Exps[((w \div 18) % Len(Exps)) + 1] >>]
     [] SMode = "seeded" /\ ~IsLattice(g) ->
          [c \in 1..RowLen |->
             LET u == Draw(r, c)  v == LcgNext(u)  w == LcgNext(v)
@@ -185,12 +198,20 @@ DetArgMin(s) ==
                           IF acc[3] = 0 \/ e < acc[2] THEN <<p, e, 1>>
                           ELSE IF e = acc[2] THEN <<acc[1], e, acc[3] + 1>> ELSE acc,
           <<0, 0, 0>>, Pos(g))
-Detect(s) == IF Dev.DetectRealOnly THEN DetArgMin(s)[1] ELSE Nearest(g, D, s)
+\* as-is of a detector that compares rounded distances: terms below 1e-16 are absorbed, the first index wins ties
+Absorbed(s) == <<s[1], IF s[3] <= -16 THEN 0 ELSE s[2], s[3], s[4], IF s[6] <= -16 THEN 0 ELSE s[5], s[6]>>
+Detect(s) == IF SMode = "scaled"
+             THEN (IF Dev.AbsorbsTinyTerms THEN ArgMinScaled(g, Absorbed(s))[1] ELSE NearestScaled(g, s))
+             ELSE IF Dev.DetectRealOnly THEN DetArgMin(s)[1] ELSE Nearest(g, D, s)
+\* as-is of a block-wise detector whose number of blocks is ROUNDED: the tail of a long frame keeps index 0
+BlockLen == 4
+Detected(ss, c) == IF Dev.BlockwiseRoundsDown /\ c > BlockLen * ((2 * Len(ss) + BlockLen) \div (2 * BlockLen))
+                   THEN PosOf(g, tab[1]) ELSE Detect(ss[c])
 
 Demodulate(r) ==
   /\ TableState
   /\ LET ss == Samples(r)
-         ps == [c \in DOMAIN ss |-> Detect(ss[c])]
+         ps == [c \in DOMAIN ss |-> Detected(ss, c)]
      IN  ret' = [op |-> "demod", row |-> r, ss |-> ss, pos |-> ps,
                  idx |-> [c \in DOMAIN ss |-> IF ps[c] = 0 THEN -1 ELSE inv[ps[c]] - 1]]
   /\ UNCHANGED <<st, g, tab, inv, scale, off, held>>
@@ -230,12 +251,16 @@ EarlierResultsUnchanged ==
 \* (every sample for M <= 16; every fourth row above - the fold is the same operator for all rows)
 MLLaw == (st = "ok" /\ ret.op = "demod" /\ (M <= 16 \/ ret.row % 4 = 1)) =>
   \A c \in DOMAIN ret.ss :
-     IF ret.pos[c] = 0 THEN IsTie(g, D, ret.ss[c])
+     IF SMode = "scaled"
+     THEN /\ ScaledRegime(g, ret.ss[c], {Exps[i] : i \in DOMAIN Exps})
+          /\ IF ret.pos[c] = 0 THEN IsTieScaled(g, ret.ss[c]) ELSE IsNearestScaled(g, ret.ss[c], ret.pos[c])
+     ELSE IF ret.pos[c] = 0 THEN IsTie(g, D, ret.ss[c])
      ELSE /\ IsNearest(g, D, ret.ss[c], ret.pos[c])
           /\ ret.idx[c] \in 0..(M - 1) /\ PosOf(g, tab[ret.idx[c] + 1]) = ret.pos[c]
 
 Lemmas == TableState =>
   /\ (IsLattice(g) /\ M <= 256) => NeighbourLemma(g)
+  /\ (IsLattice(g) /\ M <= 16) => ScaledLemma(g)
   /\ M > 1 => LET pr0 == SerParams(g, tab, scale)
                   pr  == IF Dev.BerNotPerBit THEN [pr0 EXCEPT !.k = 1] ELSE pr0
               IN  pr.sym /\ CompositionLaws(pr)
@@ -253,6 +278,7 @@ Emit ==
   THEN EmitCase([kind |-> Kind, m |-> g'.m, d |-> D, smode |-> SMode, row |-> ret'.row,
                  a |-> [c \in DOMAIN ret'.ss |-> ret'.ss[c][1]],
                  b |-> [c \in DOMAIN ret'.ss |-> ret'.ss[c][2]],
+                 ss |-> IF SMode = "scaled" THEN ret'.ss ELSE <<>>,
                  near |-> [c \in DOMAIN ret'.pos |-> NearCoord(ret'.pos[c])]])
   ELSE IF ret'.op \in {"construct", "setoff"}
   THEN EmitCase([kind |-> Kind, m |-> g'.m, table |-> ret'.op, out |-> ret'.out, off |-> off',
